@@ -3,7 +3,7 @@
    (Gen/Funcs.v).  Restated as C03_strip_brackets_current, C03_useful_current, C03_compare_current. *)
 From Coq Require Import List Arith NArith ZArith Bool Lia ZifyBool ZifyN ZifyNat String.
 Import ListNotations.
-Require Import PyStr Regex Regexes Funcs Num HeaderLine SectionParse FuncsPinsLib.
+Require Import PyStr Regex Regexes Funcs Num HeaderLine SectionParse FuncsPinsLib StripFacts StripBracketsFacts.
 Open Scope list_scope.
 Open Scope N_scope.
 
@@ -52,30 +52,58 @@ Proof.
   pose proof (lstrip_by_len_le is_space s) as H2. rewrite rev_length in H1. lia.
 Qed.
 
-Lemma removelast_len b (r : list N) : List.length (removelast (b :: r)) = List.length r.
+Lemma removelast_cons_len b (r : list N) : List.length (removelast (b :: r)) = List.length r.
 Proof.
   revert b. induction r as [|c r IH]; intros b; [reflexivity|].
   change (removelast (b :: c :: r)) with (b :: removelast (c :: r)). cbn [List.length]. rewrite IH. reflexivity.
 Qed.
 
-Lemma strip_brackets_fuel_pin : forall n x, (List.length x < n)%nat ->
-  Some (strip_brackets_fuel n x) = py_strip_brackets_fuel n x.
+(* the iterative form: the loop `while len(x) >= 2 and (x[0], x[-1] are a bracket pair): x = x[1:-1].strip()` on the
+   stripped text (a local fixpoint on fuel in Gen/Funcs.v) is the model's recursion, which strips at the start of every
+   round; the fuel S (len x) never runs out: every round drops at least the two bracket characters *)
+Definition sb_loop : nat -> list N -> option (list N) :=
+  (fix loop_ (fuel_ : nat) (st_ : list N) {struct fuel_} : option (list N) :=
+     match fuel_ with
+     | O => None
+     | S fuel_0 =>
+         match obind (Some ((2 <=? pyo_len st_)%Z))
+                 (fun t8_ : bool => if t8_ then
+                    obind (obind (obind (pyo_item st_ 0%Z) (fun t1_ => Some (str_eqb t1_ [91])))
+                             (fun t3_ : bool => if t3_ then obind (pyo_item st_ (-1)%Z) (fun t2_ => Some (str_eqb t2_ [93])) else Some false))
+                          (fun t7_ : bool => if t7_ then Some true else
+                             obind (obind (pyo_item st_ 0%Z) (fun t4_ => Some (str_eqb t4_ [40])))
+                                   (fun t6_ : bool => if t6_ then obind (pyo_item st_ (-1)%Z) (fun t5_ => Some (str_eqb t5_ [41])) else Some false))
+                  else Some false) with
+         | Some true => loop_ fuel_0 (strip (pyo_slice (Some 1%Z) (Some (-1)%Z) st_))
+         | Some false => Some st_
+         | None => None
+         end
+     end).
+
+Lemma strip_brackets_loop_pin : forall n x y, y = strip x -> (List.length x < n)%nat ->
+  sb_loop n y = Some (strip_brackets_fuel n x).
 Proof.
-  induction n as [|n IH]; intros x Hn; [lia|].
-  cbn [strip_brackets_fuel py_strip_brackets_fuel]. cbv zeta.
+  unfold sb_loop. induction n as [|n IH]; intros x y Hy Hn; [lia|]. subst y.
+  cbn [strip_brackets_fuel]. cbv zeta.
   pose proof (strip_len_le x) as Hs.
   destruct (strip x) as [|a [|b r]]; [reflexivity|reflexivity|].
   assert (Hlen : (2 <=? pyo_len (a :: b :: r))%Z = true)
     by (unfold pyo_len; cbn [List.length]; lia).
-  rewrite Hlen, pyo_item_first, pyo_item_last, pyo_slice_inner.
+  rewrite Hlen. cbn [obind]. rewrite pyo_item_first, pyo_item_last, pyo_slice_inner.
   set (z := last (a :: b :: r) 0). cbn [obind str_eqb tl].
-  assert (Hrec : Some (strip_brackets_fuel n (removelast (b :: r))) = py_strip_brackets_fuel n (removelast (b :: r))).
-  { apply IH. rewrite removelast_len. cbn [List.length] in Hs. lia. }
+  assert (Hrec := IH (removelast (b :: r)) (strip (removelast (b :: r))) eq_refl). rewrite removelast_cons_len in Hrec. cbn [List.length] in Hs.
+  specialize (Hrec ltac:(lia)).
   destruct (a =? 91); destruct (z =? 93); destruct (a =? 40); destruct (z =? 41); cbn [andb orb]; try reflexivity; exact Hrec.
 Qed.
 
 Theorem strip_brackets_pin : forall x, Some (strip_brackets x) = py_strip_brackets x.
-Proof. intros x. unfold strip_brackets, py_strip_brackets. apply strip_brackets_fuel_pin. lia. Qed.
+Proof.
+  intros x. change (py_strip_brackets x) with (obind (sb_loop (S (List.length (strip x))) (strip x)) (fun v_x => Some v_x)).
+  rewrite (strip_brackets_loop_pin (S (List.length (strip x))) (strip x) (strip x) (eq_sym (strip_idem x))) by lia.
+  cbn [obind]. f_equal. unfold strip_brackets.
+  rewrite <- (sbf_more (S (List.length (strip x))) (S (List.length x)) (strip x)) by (pose proof (strip_len_le x); lia).
+  cbn [strip_brackets_fuel]. rewrite strip_idem. reflexivity.
+Qed.
 
 (* ---------- HeaderItem.useful_mnemonic -------------------------------------------------------- *)
 Theorem useful_pin : forall orig, SectionParse.useful orig = py_useful_mnemonic orig.
